@@ -21,6 +21,7 @@ func main() {
 	out := flag.String("out", "", "result JSON file")
 	replay := flag.String("replay", "", "replay one stored case file")
 	mult := flag.Int("mult", 1, "multiply the number of generated cases (search phase)")
+	nOverride := flag.Int("n", 0, "override the number of generated cases")
 	flag.Parse()
 
 	initOptions()
@@ -55,6 +56,7 @@ func main() {
 		}
 		return
 	}
+	caseOverride = *nOverride
 	res, err := runProp(p, *tier, *seed, *driver, *verif, *mult)
 	if err != nil {
 		fmt.Fprintln(os.Stderr, "harness:", err)
